@@ -136,6 +136,10 @@ UNITS["C03"] = [
     dict(kind="depcheck", name="depcheck_c03"),
     dict(kind="structural", name="c03_sql_scoping", check="sql_actor_scoping", file="crates/klukai-agent/src/agent/util.rs",
          trusted=["heuristic SQL reading: WHERE levels are split at parenthesised sub-SELECTs; only the presence of an actor constraint is checked, not its parameter binding"]),
+    dict(kind="verus", name="c03_seqmerge", template="specs/c03_seqmerge.vrs",
+         under_contract=["frag_merge", "lemma_sql_merges_iff_overlap_or_adjacent", "lemma_interval_is_one_range"], vacuity=["frag_merge"],
+         assumptions=["the DELETE … RETURNING returns exactly the stored rows satisfying its WHERE clause (SQLite); stored rows are well-ordered and non-negative",
+                      "SQL WHERE fragment translated by vx/sqlpred.py (a bare column in a condition is read as `!= 0`)"]),
     dict(kind="verus", name="c03_batch", template="specs/c03_batch.vrs",
          under_contract=["frag_seen_in_batch"], vacuity=["frag_seen_in_batch"],
          assumptions=["RangeInclusiveMap<version, Option<PartialVersion>> stand-in (lookup per version); Iterator::all/any over version / seq ranges replaced by contract stand-ins that keep the real closures"]),
